@@ -320,7 +320,7 @@ def run_impl(line, extra=None):
         gcf = (extra or {}).get("gc")
         st, flt = guarded(lambda: mk_filter(int(t[1]), t[2], t[3], gcf))
         if st != "ok":
-            return "0 0"
+            return "0 -"
         return "1 " + ("1" if flt.valid(undash(t[5]), only_last=b(t[6])) else "0")
     raise ValueError("unknown op " + op)
 
